@@ -38,7 +38,8 @@ def parseOp (name : String) (a : List Nat) : Option Op :=
   | "releaseLockOwner", [c, lk] => some (.releaseLockOwner c lk)
   | "freeStateid", [q, sid, ss] => some (.freeStateid q sid ss)
   | "ioA", [t, q, sid, ss, fh, kind] => some (.ioA t q sid ss fh kind)
-  | "ioB", [t] => some (.ioB t)
+  | "ioB", [t] => some (.ioB t 0)
+  | "ioB", [t, fault] => some (.ioB t fault)
   | "putfh", [fh] => some (.putfh fh)
   | "unlink", [d, n] => some (.unlink d n)
   | _, _ => none
